@@ -52,6 +52,43 @@ Theorem C13_refines_store_refuted :
 Proof. exact resolve_tag_without_digest_header_refuted. Qed.
 Print Assumptions C13_refines_store_refuted.
 
+(* The excluded hypothesis is exactly the failing mechanism, in EVERY registry state: a tag
+   that exists, resolved by HEAD (Resolve; FetchReference when the GET has no
+   Content-Length) against a registry that sends no Docker-Content-Digest, fails although
+   the store resolves it.  All other (profile, operation) combinations are inside
+   C13_refines_store_partial -- [wf_op] puts no other condition on the profile. *)
+Theorem C13_resolve_tag_needs_header :
+  forall (H : str -> str) (parse_mt : str -> option str) (subject_of : str -> option (option desc))
+         (main other : str) (user_mts : list str) (p : profile) g n rst rs rf d mt c,
+    resolve_ref main rs = Some rf -> valid_digest rf = false ->
+    man_lookup (store_of g) rf = Some (d, (mt, c)) -> p_dighdr p = false ->
+    snd (run_op H parse_mt subject_of main other user_mts (reg * N)
+                (cexch H subject_of main other p None) (g, n) rst (OResolve rs)) = RErr EOther /\
+    snd (spec_op H subject_of main user_mts (store_of g) (OResolve rs)) = RDesc (mkDesc mt d (len c)).
+Proof. exact resolve_tag_needs_header. Qed.
+Print Assumptions C13_resolve_tag_needs_header.
+
+Theorem C13_fetchref_tag_needs_header :
+  forall (H : str -> str) (parse_mt : str -> option str) (subject_of : str -> option (option desc))
+         (main other : str) (user_mts : list str) (p : profile) g n rst rs rf d mt c,
+    resolve_ref main rs = Some rf -> valid_digest rf = false ->
+    man_lookup (store_of g) rf = Some (d, (mt, c)) -> p_dighdr p = false -> p_clen p = false ->
+    snd (run_op H parse_mt subject_of main other user_mts (reg * N)
+                (cexch H subject_of main other p None) (g, n) rst (OFetchRef rs)) = RErr EOther /\
+    snd (spec_op H subject_of main user_mts (store_of g) (OFetchRef rs)) = RDescBytes (mkDesc mt d (len c)) c.
+Proof. exact fetchref_tag_needs_header. Qed.
+Print Assumptions C13_fetchref_tag_needs_header.
+
+(* every one of the 32 capability profiles, with the referrers state unknown, supported and
+   (registries without the Referrers API) unsupported: a history with every operation --
+   a tag resolved by HEAD wherever the hypothesis admits it, by digest otherwise -- gives
+   the store's results (computation inside Coq) *)
+Example C13_all_profiles_covered :
+  length all_profiles = 32%nat /\
+  forallb (fun p => covered p RSUnknown && covered p RSSupported
+                    && (p_referrers p || covered p RSUnsupported)) all_profiles = true.
+Proof. exact all_profiles_covered. Qed.
+
 (* Predecessors over the Referrers API returns exactly the stored manifests whose
    subject is the given descriptor (any registry state, no hypothesis on the history) *)
 Theorem C13_predecessors_reflect :
